@@ -16,8 +16,13 @@
 //                temporaries, if / else-if chains on float comparisons, IsInf,
 //                a.Greater(b), the operand swap, switch a.Sign(), the local
 //                t := NewScalar(c.Type(), 0.0);
+//   gen_loops  : (loops.go) the reductions over vectors / matrices SmoothMax
+//                LogSmoothMax Vmean VdotV Vnorm Mtrace Mnorm: guards, local,
+//                prologue, iteration scheme, loop body, epilogue;
+//   gen_preds  : (preds.go) the predicates Greater Smaller Sign and their
+//                concrete twins, receiver = operand 0;
 //   gen_untied : every method of these files that is outside this grammar
-//                (predicates, loops over vectors / matrices), with the reason.
+//                (Equals / EQUALS), with the reason.
 //
 // coq/C01/ProofsGen.v proves that the denotation of each generated datum is the
 // hand-written table entry / composite program of coq/C01/Model.v, for every
@@ -85,6 +90,11 @@ type method struct {
 	env      map[string]value
 	epoch    int
 	hasLocal bool
+	vecs     map[string]int // ConstVector / ConstMatrix parameters -> index (loop methods)
+	isMat    map[string]bool
+	nvec     int
+	csts     map[string]int // ConstFloat64 parameters (alpha) -> index
+	ncst     int
 }
 
 func (m *method) clone() map[string]value {
@@ -968,7 +978,8 @@ func newMethod(fd *ast.FuncDecl) *method {
 		return nil
 	}
 	m := &method{recv: rt[1:], name: fd.Name.Name, rname: fd.Recv.List[0].Names[0].Name,
-		scal: map[string]int{}, tmps: map[string]int{}, tmpArr: map[string]bool{}, env: map[string]value{}}
+		scal: map[string]int{}, tmps: map[string]int{}, tmpArr: map[string]bool{}, env: map[string]value{},
+		vecs: map[string]int{}, isMat: map[string]bool{}, csts: map[string]int{}}
 	for _, p := range fd.Type.Params.List {
 		t := typeText(p.Type)
 		for _, n := range p.Names {
@@ -986,6 +997,13 @@ func newMethod(fd *ast.FuncDecl) *method {
 				m.tmps[n.Name] = 0
 				m.tmpArr[n.Name] = true
 				fmt.Sscanf(t, "[%d]", &m.ntmp)
+			case t == "ConstVector" || t == "ConstMatrix":
+				m.vecs[n.Name] = m.nvec
+				m.isMat[n.Name] = t == "ConstMatrix"
+				m.nvec++
+			case t == "ConstFloat64" && m.nvec > 0:
+				m.csts[n.Name] = m.ncst
+				m.ncst++
 			case t == "float64" && m.fpar == "":
 				m.fpar = n.Name
 			case t == "int" && m.ipar == "":
@@ -1006,6 +1024,8 @@ func main() {
 	files := []string{"scalar_real64_math.go", "scalar_real32_math.go", "scalar_real64_math_concrete.go", "scalar_real32_math_concrete.go"}
 	var entries []entry
 	var bodies []string
+	var loops []string
+	var preds []string
 	var unt []untied
 	nmeth := 0
 	parseErr := ""
@@ -1031,7 +1051,21 @@ func main() {
 			}
 			if fd.Type.Results == nil || len(fd.Type.Results.List) != 1 ||
 				(typeText(fd.Type.Results.List[0].Type) != "Scalar" && typeText(fd.Type.Results.List[0].Type) != "*"+m.recv) {
-				unt = append(unt, untied{m.recv, m.name, "predicate (result is not a scalar): the model states its meaning directly (cmpv, sign_of)"})
+				pr, err := m.predicate(fd)
+				if err != nil {
+					unt = append(unt, untied{m.recv, m.name, "predicate outside the grammar (" + err.Error() + "): not used by the operations of this property"})
+					continue
+				}
+				preds = append(preds, pr)
+				continue
+			}
+			if m.nvec > 0 {
+				l, err := m.loop(fd)
+				if err != nil {
+					unt = append(unt, untied{m.recv, m.name, err.Error()})
+					continue
+				}
+				loops = append(loops, l)
 				continue
 			}
 			if containsCombCall(m, fd.Body) {
@@ -1066,6 +1100,8 @@ func main() {
 	}
 	sb.WriteString("Definition gen_table : list entry := [\n" + strings.Join(es, ";\n") + "\n].\n\n")
 	sb.WriteString("Definition gen_bodies : list cbody := [\n" + strings.Join(bodies, ";\n") + "\n].\n\n")
+	sb.WriteString("Definition gen_loops : list lbody := [\n" + strings.Join(loops, ";\n") + "\n].\n\n")
+	sb.WriteString("Definition gen_preds : list pred := [\n" + strings.Join(preds, ";\n") + "\n].\n\n")
 	var us []string
 	for _, u := range unt {
 		us = append(us, fmt.Sprintf("  mkUntied %q %q %q", u.Recv, u.Meth, strings.Replace(u.Why, "\"", "'", -1)))
@@ -1079,15 +1115,15 @@ func main() {
 	}
 	report := map[string]interface{}{
 		"ok": parseErr == "" && len(entries) > 0, "parse_errors": parseErr, "files": files, "methods": nmeth,
-		"combinator_call_sites": len(entries), "composite_bodies": len(bodies), "hand_tied_only": unt,
+		"combinator_call_sites": len(entries), "composite_bodies": len(bodies), "loop_bodies": len(loops), "predicates": len(preds), "hand_tied_only": unt,
 		"hand_tied_only_count": len(unt),
 	}
 	if *rep != "" {
 		b, _ := json.MarshalIndent(report, "", " ")
 		os.WriteFile(*rep, b, 0644)
 	}
-	fmt.Printf("go2coq_c01: %d methods, %d combinator call sites, %d composite bodies, %d outside the grammar\n",
-		nmeth, len(entries), len(bodies), len(unt))
+	fmt.Printf("go2coq_c01: %d methods, %d combinator call sites, %d composite bodies, %d loop bodies, %d predicates, %d outside the grammar\n",
+		nmeth, len(entries), len(bodies), len(loops), len(preds), len(unt))
 	if parseErr != "" {
 		fmt.Fprint(os.Stderr, parseErr)
 		os.Exit(1)
